@@ -210,7 +210,7 @@ var gRules = []gSrc{
 	// NEW operator: NEW proto (value [AS field], ...) and NEW proto { field: value  sub { ... } }
 	rule("new_arg", "expr", "named: expr AS ident"),
 	rule("braced", "juxtaposed: '{' {0 braced_field } '}'", "commas: '{' {2 braced_field / , } '}'"),
-	rule("braced_field", "value: ident : expr", "message: ident braced"),
+	rule("braced_field", "value: ident : expr", "message: ident braced", "message_colon: ident : braced"),
 	rule("with_var", "ident AS expr"),
 	rule("replace_fields_arg", "expr AS path"),
 
